@@ -1,21 +1,77 @@
 """Single source for MANIFEST.json (see tools_gen_manifest.py)."""
 NOTE = ("Trusted: CPython ast, mypy 1.5.1 inference for receiver/set types, the ddsverif engine (self-validated by the "
         "variant corpus in the thorough tier). Decides the listed structural clauses, each a necessary condition of the "
-        "property; not the behaviour as a whole (see DESIGN.md section 4).")
+        "property (a violated clause has a concrete input / crash point / interleaving / history as counterexample); it does "
+        "not decide the behaviour as a whole (see DESIGN.md section 4 for what is not decided).")
+WHY = (" Each clause holds or fails for every input / schedule / crash point / history at once, which is the quantifier the "
+       "59 example tests lack.")
 
-CHECKS = [
-    dict(property_id="C10",
-         text="Static proof obligations on the CFG (with exceptional edges) of the API functions: context reset post-dominates "
-              "every context set; store_blob and sync_paths are dominated by the normal completion of the user call / root value "
-              "and lie in no handler; no swallowing handler around the user call. Holds for every input and exception at once, "
-              "which is the quantifier the tests lack; decides these necessary clauses, not value-level behaviour.",
-         design_ref="DESIGN.md 4 C10", note=NOTE,
-         technique="static analysis: CFG dominance / post-dominance with exceptional edges, reaching definitions"),
-]
+_T = {
+ "C01": ("signature composition completeness (every component reaches the order-insensitive combiner and its producer), visitor "
+         "traversal completeness, call-site extent covers the call's end line, tracked-type table covers every hashable plain type "
+         "(abstract evaluation of the classifier), memo protocol key/value identity on the API's CFG",
+         "def-use slices, CFG dominance, abstract evaluation of the type classifier"),
+ "C02": ("no module identity / file position reaches a signature sink (interprocedural backward slices), the call-context key "
+         "enters a signature only when some argument has no static hash, presence test dominates execution, literal = run-time "
+         "argument hashing (shared with C13)", "interprocedural taint by backward slicing, CFG dominance"),
+ "C03": ("no nondeterminism source (id, hash, repr of objects, environment, time, random) and no hash-seed iteration order reaches a "
+         "signature sink; the cross-evaluation interaction cache has no writer; the per-evaluation context does not escape; debug / "
+         "export options do not reach the analysis", "taint and order-taint by backward slicing with mypy set types, who-may-write, escape check"),
+ "C04": ("one commit of the complete path map after the root value exists on every normal path, no other committer; load = path -> key -> "
+         "blob; writer and reader location terms agree per store; destructive effects confined to the committed path",
+         "CFG must-pass-through, def-use identity, file-system effect summaries"),
+ "C05": ("totality (partial primitives such as struct.pack guarded by their domain), determinism, no component dropped and order kept in "
+         "container branches, boundary pre-images pairwise distinct (abstract evaluation on None, '', [], (), {}, empty dataclass), numeric "
+         "encodings of disjoint length / tagged, size guard dominates iteration",
+         "abstract evaluation of the value hasher on boundary classes, CFG dominance, table of partial primitives"),
+ "C06": ("atomic publication of every reader-visible name (rename of a private unique temporary), commit marker published last and "
+         "presence = marker, no publication before serialisation completed, writer-unique temporaries, store_blob always reaches the marker",
+         "file-system effect summaries over path terms, CFG dominance / must-pass-through"),
+ "C07": ("no check-then-act on shared names, idempotent directory creation, writer-unique temporaries beside their target, atomic "
+         "publication and marker-last", "file-system effect summaries, branch-condition / probe matching"),
+ "C08": ("path -> location term injective on non-empty segments (segment-domain evaluation), dot segments rejected or exact containment "
+         "test before the location is used, blob / metadata names disjoint, writer and reader terms equal per store, store_blob "
+         "always publishes the marker", "segment-domain abstract evaluation of path expressions, CFG dominance, term equality"),
+ "C09": ("call-tree traversals keyed on their own parameter, every in-evaluation producer registers its path before later siblings are "
+         "analysed, a read-before-produce reaches a DDSException (at the load's visit), run-time load consults the evaluation's map, "
+         "external loads resolved before analysis, loaded paths are a signature component with duplicates removed",
+         "def-use dependence of recursion guards, CFG dominance, who-must-register"),
+ "C10": ("context reset post-dominates every context set (exceptional edges included), store_blob / sync_paths dominated by the normal "
+         "completion of the user call / root value and outside handlers, who-may-call for the store mutators, no swallowing handler "
+         "around the user call", "CFG dominance / post-dominance with exceptional edges, reaching definitions, who-may-call"),
+ "C11": ("groupby only over input sorted by the same key, cycle test dominates every descent with the stack extended by the callee "
+         "actually descended into, nested-eval rejection static x2 + dynamic, analysis and rejections dominate the first user call and "
+         "store mutation, sibling agreement of the two inspectors, required rejection codes exist",
+         "CFG dominance, reaching definitions, sibling cross-check"),
+ "C12": ("cache insertion control-dependent on presence evidence, key additions post-dominated by the eviction loop with the exact "
+         "capacity, single capacity writer and private mapping, pass-through shapes, cache_objects decode table",
+         "CFG dominance / post-dominance, who-may-write with mypy receiver types, abstract evaluation of the option decoder"),
+ "C13": ("both argument binders enumerate all parameters with the same three-way source structure; the value normaliser is identical "
+         "(identity) at every hashing site: positional / keyword / default / literal; parameters come from inspect.signature in both",
+         "sibling cross-check of the two binders, abstract evaluation of normaliser expressions on {None, falsy, truthy}"),
+ "C14": ("prefix enumeration bounded by the path and compared component-wise, registration adds exactly the module name and never "
+         "removes, authorisation test follows re-export redirection, external objects carry no value and are never descended into",
+         "index-domain lint, def-use, CFG dominance, who-may-write"),
+ "C15": ("user call and store mutations dominated by an outcome implying EVAL in stages, path commit by PATH_COMMIT in stages, no other "
+         "committer, nothing before the stage guard reaches a store mutation or user code, stage parser decode table, stage list does "
+         "not reach the analysis", "CFG dominance, call-graph reachability, abstract evaluation of the stage parser"),
+ "C16": ("roots made absolute in the constructor, blob names depend on the internal directory only and path entries on the data "
+         "directory only, link target is the absolute blob term, set_store('local') decode table, idempotent directory creation",
+         "file-system effect summaries over path terms, abstract evaluation of set_store"),
+ "C17": ("persisted reference = ref() of the serialising codec, read codec looked up by the persisted reference only and read mode decided "
+         "by the codec's class, distinct references per registry, dual serialise / deserialise operations in binary mode, text and bytes "
+         "verbatim, registration keeps the two lookup tables consistent", "def-use identity, sibling duality table, table-consistency cross-check"),
+ "C19": ("documented commit-type literals (read from the docstring) decode to distinct members with the documented effect classes, legacy "
+         "alias kind = target codec kind, per-commit-type effect sets of sync_paths, metadata / redirect record written last, read mode "
+         "decided by codec class", "abstract evaluation of set_store, file-system effect summaries with branch conditions decided per commit type"),
+}
+_DONE = ["C04", "C06", "C07", "C08", "C10", "C11", "C12", "C15", "C16", "C17", "C19"]
+
+CHECKS = [dict(property_id=p, text="Static verdict on: " + _T[p][0] + "." + WHY, design_ref=f"DESIGN.md section 4, {p}", note=NOTE,
+               technique="static analysis: " + _T[p][1]) for p in sorted(_DONE)]
 
 _PENDING = "check under construction in this session; not claimed until it runs clean (see DESIGN.md)"
 NOT_APPLICABLE = [
     dict(property_id="C18", reason="faithfulness/acyclicity of the exported graph quantifies over interaction trees of arbitrary user "
          "programs; no clause is decidable from the shape of _plotting.py by static analysis (DESIGN.md 4 C18)"),
-] + [dict(property_id=p, reason=_PENDING) for p in
-     ["C01","C02","C03","C04","C05","C06","C07","C08","C09","C11","C12","C13","C14","C15","C16","C17","C19"]]
+] + [dict(property_id=p, reason=_PENDING) for p in sorted(set(_T) - set(_DONE))]
